@@ -194,6 +194,14 @@ def run(ctx, config):
                 if (is_e(l, "incdec") and l[1] == "--" and is_e(strip(l[3]), "fld") and strip(l[3])[2] == refd) or \
                    (is_e(l, "var") and any(any(is_e(q, "incdec") and q[1] == "--" and is_e(strip(q[3]), "fld") and strip(q[3])[2] == refd for q in walk(rhs)) for d, rhs in var_stores(f, l[1]))):
                     okz = True
+                # the decrement as a statement of its own, the count tested afterwards: the decrement dominates the test and nothing stores the count in between
+                bid_ = b.id if hasattr(b, "id") else b
+                if is_e(l, "fld") and l[2] == refd and len(dec) == 1 and f.dominates(dec[0].bid, bid_):
+                    other = [e3 for e3, lh, o3, r3 in f.stores() if e3 is not dec[0] and is_e(strip(lh), "fld") and strip(lh)[2] == refd]
+                    # another store of the count matters only if the test can still be reached from it (the re-increment on the "pinned" path returns)
+                    between = [o for o in other if (o.bid == bid_ and o.idx > dec[0].idx) or (o.bid != bid_ and bid_ in f.reach_blocks(o.bid))]
+                    if not between:
+                        okz = True
         r.inst(("zero", slot), {"site": el.where(), "dominated_by_refcount_zero": okz, "decrements": [d.where() for d in dec]})
         if not okz or len(dec) != 1:
             r.bad("K3:%s:not-after-last-reference" % slot, el.where(), f.name,
